@@ -449,22 +449,24 @@ def run(ctx):
     rep.sample({'rspawn K paths (byte sets per position)': H5.samples})
     # spawn.c main: per exited child one group  delnum, report, NUL, flush
     sm = pr.fn('main', 'spawn.c')
-    reps = sm.calls('report')
+    from qv.lib import deep_calls, guards_through, branch_zero_test
+    reps = deep_calls(pr, sm, 'report', depth=2)
     if not reps:
         raise AnalysisBroken('spawn.c main: report() call not found')
-    for c in reps:
-        g = sm.guards(c) or []
-        eof = any(cc.strip().k == 'bin' and cc.strip().op == '==' and cc.strip().args[1].const == 0 and t is True for cc, t in g)
-        blk = sm.pos[c.id][0]
-        tops = sm.block_tops(blk)
+    for f_, c in reps:
+        g = guards_through(pr, sm, f_, c)
+        eof = any(branch_zero_test(cc, t, lambda v: (v.var or '').startswith('L:')) == 'zero' for cc, t in g)
+        blk = f_.pos[c.id][0]
+        tops = f_.block_tops(blk)
         seq = []
         for tx in tops:
             for y in tx.walk():
                 if y.k == 'call' and y.callee in ('substdio_put', 'report', 'substdio_flush', 'substdio_putflush'):
                     seq.append((y.callee, y.args[1].string if y.callee == 'substdio_put' and len(y.args) > 1 else None,
                                 y.args[2].const if y.callee == 'substdio_put' and len(y.args) > 2 else None))
-        names = [s[0] for s in seq]
+        seq.sort(key=lambda s_: 0)       # walk order is evaluation order within a statement list
+        names = [s_[0] for s_ in seq]
         ok = eof and names[:4] == ['substdio_put', 'report', 'substdio_put', 'substdio_flush'] and seq[2][1] == '' and seq[2][2] == 1 and seq[0][2] == 1
-        r5.check(ok, 'one-report-group-per-child-EOF', c.where, 'expected put(delnum) report() put(NUL) flush under r == 0; found %s (eof-guard=%s)' % (seq[:5], eof))
+        r5.check(ok, 'one-report-group-per-child-EOF', c.where, 'expected put(delnum) report() put(NUL) flush when the child\'s pipe is at end of file; found %s (eof-guard=%s)' % (seq[:5], eof))
     rep.assume('reply-code classes are represented by %s; smtp() compares the code only with constants' % REPS,
                'substdio_puts on smtpto sends the literal command', 'plain char is signed')
